@@ -106,6 +106,12 @@ func (c *FnCtx) ghostIntrinsic(fr *Frame, st *State, fn *ssa.Function, args []*T
 		return []*Term{c.getCell(st, c.curFrame.iterByLoop[int(k)].count)}, true
 	case "verifHeight":
 		return []*Term{c.height(st, args[0])}, true
+	case "verifVisited": // has the map-range loop with the given ordinal already delivered this key?
+		k, ok := args[0].IntLit()
+		if !ok || c.curFrame == nil || c.curFrame.iterByLoop[int(k)] == nil {
+			unsupported("verifVisited: no map-range loop #%v known at this point", k)
+		}
+		return []*Term{ts.Select(c.getCell(st, c.curFrame.iterByLoop[int(k)].visited), args[1])}, true
 	case "verifIsNaN":
 		return []*Term{ts.UF("f64!isnan", SBool, args[0])}, true
 	case "verifIsInf":
